@@ -17,7 +17,7 @@ from ir import walk, strip, expr_str
 from engines import call_args, FMT_RE, enclosing_conditions
 
 PID = "C02"
-UNITS = dict(components={"exp2cxx", "clstepcore"})
+UNITS = dict(components={"exp2cxx", "clstepcore", "clutils"})
 LEVEL_TEXT = "other"
 TECHNIQUE = ("static analysis: emitted-code templates (format strings + argument provenance) expanded over every truth assignment of "
              "the generator's predicates and matched, slot by slot, against the parameter lists of the run-time constructors "
@@ -39,7 +39,12 @@ EXPLANATION = (
     "has R = A = H: parts created for second and later supertypes are chained to, and register their attributes with, the "
     "head of the instance (necessary for a fresh instance to expose the attributes inherited through them). "
     "(R5) the buffer printed as the argument of an emitted `<descriptor>->ReferentType( %s )` has been overwritten, on every path, since it held the descriptor's own name (fills-iff-non-zero summary of the naming helper, edge-sensitive walk): no descriptor names itself as its element type. Not decided: names, types, order of enumeration items and select members, inherited attribute order, accessors — the "
-    "values the generator computes for an arbitrary schema.")
+    "values the generator computes for an arbitrary schema. "
+    "(R6) the generator registers every schema, entity and defined type under the key its own PrettyTmpName() computes, and the "
+    "run-time Registry / InstMgr look names up through the library's own copy of PrettyTmpName() (and the ToLower / ToUpper helpers "
+    "both use): the clang flow graphs of the copies are bisimilar - same canonical statements in corresponding blocks, same "
+    "branching, loops where the other loops; variable names, conversions and buffer-bound constants are not compared - so a key "
+    "written by the generator is the key the run time asks for.")
 
 PRED_PARAM = {"optional": "VARget_optional", "unique": "VARget_unique", "abstractEntity": "ENTITYget_abstract", "extMapping": "externMap"}
 KIND_PREDS = ("VARget_inverse", "VARis_derived", "VARis_type_shifter")
@@ -580,7 +585,47 @@ def r5_referent_not_self(prog, res):
     res.floor("R5.referent_is_not_the_descriptor_itself", "emitted ReferentType( <buffer> ) templates", n, 1)
 
 
+# helpers that exist as a copy in the generator and a copy in the run-time library, where the generator's result is a dictionary key and
+# the run time's result is what that key is looked up with
+KEY_HELPERS = {
+    "PrettyTmpName": "exp2cxx prints PrettyTmpName(name) as the registered name of every schema / entity / type; Registry::FindEntity, "
+                     "FindSchema, FindType and InstMgr look up PrettyTmpName(name)",
+    "ToLower": "called by PrettyTmpName for every character",
+    "ToUpper": "called by PrettyTmpName for the first character and after each underscore",
+}
+
+
+def r6_key_helpers_agree(prog, res):
+    import clones
+    n = 0
+    for name, why in sorted(KEY_HELPERS.items()):
+        gen = [f for f in prog.fn(name) if f.component == "exp2cxx" and f.cfg is not None]
+        rt = [f for f in prog.fn(name) if f.component in ("clutils", "clstepcore") and f.cfg is not None]
+        if not gen or not rt:
+            res.broke("R6: copies of %s not found on both sides (generator %d, run time %d)" % (name, len(gen), len(rt)))
+            continue
+        # the helper must really be in use on both sides, otherwise the table is stale
+        for g in gen[:1]:
+            for r in rt[:1]:
+                d = clones.bisimilar(g, r)
+                n += 1
+                res.add("R6.key_helpers_agree", "R6|%s|%s|%s" % (name, g.relfile(), r.relfile()),
+                        ("%s:%s" % (g.relfile(), d[0])) if d else g.where(), d is None,
+                        "the generator's and the run time's copies of %s have bisimilar flow graphs (%s)" % (name, why) if d is None else
+                        "the copies of %s disagree: %s:%s has `%s` where %s:%s has `%s` (%s); %s - a name the generator registers is "
+                        "then not the name the run time looks up" % (name, g.relfile(), d[0], d[2][:90], r.relfile(), d[1], d[3][:90], d[4], why))
+    res.floor("R6.key_helpers_agree", "generator / run-time helper pairs", n, 3)
+    # the premise of the table: the generator prints the helper's result into a descriptor constructor, the registry hashes it
+    users_rt = [f.name for f in prog.all_functions() if f.component == "clstepcore" and any(True for _ in f.calls("PrettyTmpName"))]
+    users_gen = [f.name for f in prog.all_functions() if f.component == "exp2cxx" and any(True for _ in f.calls("PrettyTmpName"))]
+    res.info["r6_runtime_users"] = sorted(set(users_rt))
+    res.info["r6_generator_users"] = len(set(users_gen))
+    if not any(u.startswith("Registry::Find") for u in users_rt) or not users_gen:
+        res.broke("R6: PrettyTmpName is no longer used by Registry::Find* and the generator; the KEY_HELPERS table is stale")
+
+
 def run(prog, res, tier):
+    r6_key_helpers_agree(prog, res)
     r5_referent_not_self(prog, res)
     r4_part_head(prog, res)
     r1_slots(prog, res)
